@@ -10,6 +10,7 @@ Dom == CASE Fn = "normalize_slice" -> DomNormalize(NMax, SMax, Pad)
          [] Fn = "compose_slices"  -> DomCompose(NMax, Pad)
          [] Fn = "plan_rechunk"    -> DomRechunk(Preset)
          [] Fn = "merge_to_number" -> DomMerge(NMax)
+         [] Fn = "divide_to_width" -> DomDivide(NMax)
          [] Fn = "normalize_chunks" -> DomNormChunks(Preset)
          [] Fn = "unify_chunks"    -> DomUnify(Preset)
          [] Fn = "moved_fraction"  -> DomMoved(NMax)
